@@ -18,6 +18,7 @@ bitflags! {
         const STRICT   = 1 << 2;
         const ESCAPES  = 1 << 3;
         const ACCESSED = 1 << 4;
+        const REMOVED  = 1 << 5;
     }
 }
 
@@ -61,6 +62,10 @@ impl Binding {
     }
     fn is_accessed(&self) -> bool {
         self.flags.is_accessed()
+    }
+    /// Checks if this is the (not removed) binding for `name`.
+    fn is_named(&self, name: &JsString) -> bool {
+        !self.flags.contains(BindingFlags::REMOVED) && &self.name == name
     }
 }
 
@@ -173,21 +178,21 @@ impl Scope {
             .bindings
             .borrow()
             .iter()
-            .find(|b| &b.name == name)
+            .find(|b| b.is_named(name))
             .is_some_and(Binding::is_lex)
     }
 
     /// Check if the scope has a binding with the given name.
     #[must_use]
     pub fn has_binding(&self, name: &JsString) -> bool {
-        self.inner.bindings.borrow().iter().any(|b| &b.name == name)
+        self.inner.bindings.borrow().iter().any(|b| b.is_named(name))
     }
 
     /// Get the binding locator for a binding with the given name.
     /// Fall back to the global scope if the binding is not found.
     #[must_use]
     pub fn get_identifier_reference(&self, name: JsString) -> IdentifierReference {
-        if let Some(binding) = self.inner.bindings.borrow().iter().find(|b| b.name == name) {
+        if let Some(binding) = self.inner.bindings.borrow().iter().find(|b| b.is_named(&name)) {
             IdentifierReference::new(
                 BindingLocator::declarative(
                     name,
@@ -273,7 +278,7 @@ impl Scope {
             .bindings
             .borrow()
             .iter()
-            .find(|b| &b.name == name)
+            .find(|b| b.is_named(name))
         {
             Some(binding.is_mutable())
         } else if let Some(outer) = &self.inner.outer {
@@ -290,7 +295,7 @@ impl Scope {
             .bindings
             .borrow()
             .iter()
-            .find(|b| &b.name == name)
+            .find(|b| b.is_named(name))
             .map(|binding| {
                 BindingLocator::declarative(
                     name.clone(),
@@ -308,7 +313,7 @@ impl Scope {
             .bindings
             .borrow()
             .iter()
-            .find(|b| &b.name == name)
+            .find(|b| b.is_named(name))
             .map(|binding| {
                 IdentifierReference::new(
                     BindingLocator::declarative(
@@ -336,7 +341,7 @@ impl Scope {
                 .bindings
                 .borrow_mut()
                 .iter_mut()
-                .find(|b| &b.name == name)
+                .find(|b| b.is_named(name))
             {
                 binding.flags.insert(BindingFlags::ACCESSED);
                 if crossed_function_border || eval_or_with {
@@ -382,7 +387,7 @@ impl Scope {
     pub fn create_mutable_binding(&self, name: JsString, function_scope: bool) -> BindingLocator {
         let mut bindings = self.inner.bindings.borrow_mut();
         let binding_index = bindings.len() as u32;
-        if let Some(binding) = bindings.iter().find(|b| b.name == name) {
+        if let Some(binding) = bindings.iter().find(|b| b.is_named(&name)) {
             return BindingLocator::declarative(
                 name,
                 self.inner.index.get(),
@@ -410,7 +415,7 @@ impl Scope {
     #[allow(clippy::cast_possible_truncation)]
     pub(crate) fn create_immutable_binding(&self, name: JsString, strict: bool) {
         let mut bindings = self.inner.bindings.borrow_mut();
-        if bindings.iter().any(|b| b.name == name) {
+        if bindings.iter().any(|b| b.is_named(&name)) {
             return;
         }
         let binding_index = bindings.len() as u32;
@@ -433,7 +438,7 @@ impl Scope {
         name: JsString,
     ) -> Result<IdentifierReference, BindingLocatorError> {
         Ok(
-            match self.inner.bindings.borrow().iter().find(|b| b.name == name) {
+            match self.inner.bindings.borrow().iter().find(|b| b.is_named(&name)) {
                 Some(binding) if binding.is_mutable() => IdentifierReference::new(
                     BindingLocator::declarative(
                         name,
@@ -485,7 +490,7 @@ impl Scope {
         }
 
         Ok(
-            match self.inner.bindings.borrow().iter().find(|b| b.name == name) {
+            match self.inner.bindings.borrow().iter().find(|b| b.is_named(&name)) {
                 Some(binding) if binding.is_mutable() => IdentifierReference::new(
                     BindingLocator::declarative(
                         name,
@@ -512,6 +517,42 @@ impl Scope {
                 )?,
             },
         )
+    }
+
+    /// Removes the bindings with an index in `range` from name resolution.
+    ///
+    /// The bindings keep their indices, so the indices of all other bindings stay valid. This is
+    /// used to take back the global lexical declarations of a script whose
+    /// `GlobalDeclarationInstantiation` failed: scope analysis has already added them to the
+    /// scope that every later script of the realm is analysed against.
+    pub fn discard_bindings(&self, range: std::ops::Range<u32>) {
+        for binding in self.inner.bindings.borrow_mut().iter_mut() {
+            if range.contains(&binding.index) {
+                binding.flags.insert(BindingFlags::REMOVED);
+            }
+        }
+    }
+
+    /// Reverts [`Scope::discard_bindings`].
+    ///
+    /// Returns `false`, and restores nothing, if a binding with the name of one of the discarded
+    /// bindings has been created in the meantime.
+    #[must_use]
+    pub fn restore_bindings(&self, range: std::ops::Range<u32>) -> bool {
+        let mut bindings = self.inner.bindings.borrow_mut();
+        let redeclared = bindings
+            .iter()
+            .filter(|b| range.contains(&b.index) && b.flags.contains(BindingFlags::REMOVED))
+            .any(|removed| bindings.iter().any(|b| b.is_named(&removed.name)));
+        if redeclared {
+            return false;
+        }
+        for binding in bindings.iter_mut() {
+            if range.contains(&binding.index) {
+                binding.flags.remove(BindingFlags::REMOVED);
+            }
+        }
+        true
     }
 
     /// Gets the outer scope of this scope.
